@@ -291,6 +291,12 @@ func c08Universe() []*ct {
 		sh("list", &ct{kind: "time", n: 1}), sh("list", &ct{kind: "dur", n: 1}), sh("list", nu(1), &ct{kind: "time", n: 2}),
 		sh("map", nm("/a"), &ct{kind: "time", n: 1}), sh("map", nm("/a"), &ct{kind: "dur", n: 1}), sh("map", &ct{kind: "time", n: 1}, nu(2)),
 		sh("struct", nm("/a"), &ct{kind: "time", n: 1}), sh("struct", nm("/a"), st("a")), sh("struct", nm("/a"), &ct{kind: "bytes", s: "a"}),
+		// two entries, one of them differing only in kind: whichever entry sorts first, the comparison must reach the other
+		sh("struct", nm("/a"), nu(1), nm("/b"), &ct{kind: "time", n: 2}), sh("struct", nm("/a"), nu(1), nm("/b"), &ct{kind: "dur", n: 2}),
+		sh("struct", nm("/a"), &ct{kind: "time", n: 1}, nm("/b"), nu(2)), sh("struct", nm("/a"), &ct{kind: "dur", n: 1}, nm("/b"), nu(2)),
+		sh("map", nm("/a"), nu(1), nm("/b"), &ct{kind: "time", n: 2}), sh("map", nm("/a"), nu(1), nm("/b"), &ct{kind: "dur", n: 2}),
+		sh("map", nm("/a"), &ct{kind: "time", n: 1}, nm("/b"), nu(2)), sh("map", nm("/a"), &ct{kind: "dur", n: 1}, nm("/b"), nu(2)),
+		sh("list", nu(1), &ct{kind: "dur", n: 2}), sh("list", nu(1), nu(2), &ct{kind: "time", n: 3}), sh("list", nu(1), nu(2), nu(3)),
 	}
 	return u
 }
